@@ -98,10 +98,17 @@ def bounded_generated_models(tier, seed):
         "Counts": {"type": "object", "additionalProperties": P["int"]},
         "Audit": C.obj({"stamps": C.ref("Stamps"), "idents": C.ref("Idents"), "inline-days": {"type": "object", "additionalProperties": P["date"]}}, []),
         "ListOfMaps": C.obj({"rows": {"type": "array", "items": {"type": "object", "additionalProperties": C.ref("Leaf2")}}}, ["rows"]),
+        # enum-valued properties that double as discriminators: every declared value of the property is a conforming document, also when several
+        # discriminator values select the same variant
+        "Card": C.obj({"kind": {"type": "string", "enum": ["visa", "mastercard"]}, "last4": P["str"]}, ["kind"]),
+        "Sepa": C.obj({"kind": {"type": "string", "enum": ["sepa"]}, "iban": P["str"]}, ["kind"]),
+        "Payment": {"oneOf": [C.ref("Card"), C.ref("Sepa")], "discriminator": {"propertyName": "kind", "mapping": {
+            "visa": C.REF + "Card", "mastercard": C.REF + "Card", "sepa": C.REF + "Sepa"}}},
+        "Order": C.obj({"payment": C.ref("Payment"), "fallback": C.ref("Card")}, ["payment"]),
     }
     d = C.doc("RT", [C.op("/o", "get", "getO", ["o"], responses={"200": C.resp_json(C.ref("Outer")), "201": C.resp_json(C.ref("Registry")), "202": C.resp_json(C.ref("Holder")),
                                                                       "203": C.resp_json(C.ref("MapOnly")), "206": C.resp_json(C.ref("ListOfMaps")), "207": C.resp_json(C.ref("Audit")),
-                                                                      "208": C.resp_json(C.ref("Days")), "226": C.resp_json(C.ref("Counts"))})], schemas)
+                                                                      "208": C.resp_json(C.ref("Days")), "226": C.resp_json(C.ref("Counts")), "205": C.resp_json(C.ref("Order"))})], schemas)
     inner = {"user-id": "u1", "pageSize": 3, "when": "2024-01-02T03:04:05+00:00", "day": "2024-01-02", "ident": "12345678-1234-5678-1234-567812345678",
              "blob": "aGk=", "3dModels": 2, "_hidden": "h", "class": "c", "kind": "a-b", "level": 0, "mode": "", "flag": False, "count": 0, "note": ""}
     outer = {"inner": inner, "many": [inner, {"user-id": "u2"}], "by-key": {"k": inner}, "tags": ["x"], "address_line": "a1", "addressLine": "a2", "address_line_2": "a3"}
@@ -201,6 +208,24 @@ def bounded_generated_models(tier, seed):
                 assert json.loads(json.dumps(DataclassSerializer.serialize(obj))) == doc, ("serialize", doc)
             ''') % (modname, cname, __import__("json").dumps(doc_))
             ok, out = G.import_modules(root, ["rt.models"], extra_code=solo5)
+            n += 1
+            if not ok:
+                failures.append({"id": f"bounded:generated-roundtrip:{label}", "detail": out[-600:], "input": {"document": doc_, "class": cname}})
+        for label, modname, cname, doc_ in (
+                ("discriminator-enum:visa", "order", "Order", {"payment": {"kind": "visa", "last4": "4242"}}),
+                ("discriminator-enum:mastercard", "order", "Order", {"payment": {"kind": "mastercard", "last4": "5555"}, "fallback": {"kind": "visa"}}),
+                ("discriminator-enum:sepa", "order", "Order", {"payment": {"kind": "sepa", "iban": "FI00"}}),
+                ("discriminator-enum:standalone-variant", "card", "Card", {"kind": "visa", "last4": "1"})):
+            solo6 = textwrap.dedent('''
+                import json
+                from rt.core.cattrs_converter import structure_from_dict
+                from rt.core.utils import DataclassSerializer
+                from rt.models.%s import %s as T
+                doc = json.loads(%r)
+                back = json.loads(json.dumps(DataclassSerializer.serialize(structure_from_dict(doc, T))))
+                assert back == doc, (doc, back)
+            ''') % (modname, cname, __import__("json").dumps(doc_))
+            ok, out = G.import_modules(root, ["rt.models"], extra_code=solo6)
             n += 1
             if not ok:
                 failures.append({"id": f"bounded:generated-roundtrip:{label}", "detail": out[-600:], "input": {"document": doc_, "class": cname}})
